@@ -29,6 +29,10 @@ def fortran_plan(lib, r):
         f = lib["functions"][call["f"]]
         multi = len(f["variants"]) > 1 or any(g is not f and g["name"] == f["name"] and g.get("cls") == f.get("cls") for g in lib["functions"])
         call["via"] = "generic" if (not multi or k % 2 == 0 or f.get("ctor")) else "specific"
+        if f.get("template") and f["ret"].get("T") in (f.get("tparams") or ["ArgType"]):
+            # generate.py template_function: "Generics cannot differentiate on return type" -- no generic is created when
+            # the result type is a template parameter; only the specifics exist
+            call["via"] = "specific"
         if f.get("generic"):
             for gi, g in enumerate(f["generic"]):
                 c = copy.deepcopy(call)
